@@ -494,6 +494,9 @@ func basicAltFormat(formatChar byte, sep2 string, leftDelimiter byte, containerF
 	}
 }
 
+// maxFormatNumber is the largest width or precision that the fmt package accepts in a format
+const maxFormatNumber = 1000000
+
 func parseFormat(origFmt string, separator string, separator2 string, containerFormats px.FormatMap) px.Format {
 	group := px.FormatPattern.FindStringSubmatch(origFmt)
 	if group == nil {
@@ -531,6 +534,9 @@ func parseFormat(origFmt string, separator string, separator2 string, containerF
 	}
 	if tmp := group[3]; tmp != `` {
 		prc, _ = strconv.Atoi(tmp)
+	}
+	if width > maxFormatNumber || prc > maxFormatNumber {
+		panic(px.Error(px.InvalidStringFormatSpec, issue.H{`format`: origFmt}))
 	}
 	return &format{
 		origFmt:          origFmt,
